@@ -35,11 +35,39 @@ def headerToJson (h : Header) : Json :=
        ("exbpms", dictToJson ratToJson h.exbpms), ("samples", dictToJson bytesToJson h.samples),
        ("bpm0", ratToJson h.bpm0), ("misc", dictToJson bytesToJson h.misc)]
 
+def laneOf? (j : Json) : Except String (Bytes × Nat) :=
+  match j with
+  | Json.arr #[c, n] => do .ok ((← bytesOf? c), (← natOf? n))
+  | _ => .error "lane expected [channel, column]"
+
+/-- a caller-built layout dict, as it is at the call: `"layout_def": {"time_sig", "bpm", "exbpm", "lanes": [[channel,
+column], …]}` (lanes in dict order); absent / null = one of the named tables -/
+def layoutDef? (j : Json) : Except String (Option Layout) :=
+  match j.getObjVal? "layout_def" with
+  | .ok Json.null => .ok none
+  | .ok d => do
+    .ok (some ⟨← bytesOf? (← field d "time_sig"), ← bytesOf? (← field d "bpm"), ← bytesOf? (← field d "exbpm"),
+               ← getArr laneOf? d "lanes"⟩)
+  | .error _ => .ok none
+
 def getLayout (j : Json) : Except String Layout := do
-  let n ← getStr j "layout"
-  match layoutOf n with
+  match ← layoutDef? j with
   | some l => .ok l
-  | none => .error s!"unknown layout {n}"
+  | none =>
+    let n ← getStr j "layout"
+    match layoutOf n with
+    | some l => .ok l
+    | none => .error s!"unknown layout {n}"
+
+/-- the by-the-book layout of a call: the caller's dict as given, or the by-the-book table of that name -/
+def getBookLayout (j : Json) : Except String Layout := do
+  match ← layoutDef? j with
+  | some l => .ok l
+  | none =>
+    let n ← getStr j "layout"
+    match bookLayout n with
+    | some l => .ok l
+    | none => .error s!"unknown layout {n}"
 
 /-- smallest |tie margin| over the re-snapped tempo distances: a float evaluation may flip the snap there -/
 def resnapMargins (g : List Rat) : List BcSnap → List Rat
@@ -101,10 +129,7 @@ def handle (op : String) (j : Json) : Except String Json := do
     | .ok c => .ok (okJson (chartToJson lay lines c))
     | .error e => .ok (errJson e.toString)
   | "c04.denote" =>
-    let n ← getStr j "layout"
-    let lay ← match bookLayout n with
-      | some l => .ok l
-      | none => .error s!"unknown layout {n}"
+    let lay ← getBookLayout j
     let lines ← getArr bytesOf? j "lines"
     let den := denote lay lines
     let g := grid defaultMaxDiv
